@@ -68,6 +68,7 @@ def progress_bar_rule(rep, model):
 
 
 def check(rep, model, tier):
+    _doc_defaults(rep, model)
     rep.rule('ORDERED-MAP', 'per-row work is mapped with an order-preserving pool primitive (imap / map / starmap), in every options x progress scenario')
     rep.rule('RESULT-ORDER', 'the returned list is list(<pool result or an order-preserving progress wrapper of it>): results are collected in submission order')
     rep.rule('SHARED', 'with None / one dictionary every row is analysed by compute_features(row, fs, f_range, return_samples=<own>, **options-without-return_samples)')
@@ -150,3 +151,8 @@ def check(rep, model, tier):
     rep.instances[before:] = [i for i in keep if i['rule'] == 'INDEX-AGREE' or i['status'] != 'discharged' or True]
     rep.rule('ARG-NAME', 'BycycleGroup.fit binds its settings to compute_features_2d by name (shared with C14)')
     rep.floor('rule instances', len(rep.instances), 30)
+
+
+def _doc_defaults(rep, model):
+    from . import common as _c
+    _c.doc_defaults(rep, model, ['compute_features_2d'])
